@@ -38,9 +38,9 @@ ASSUMPTIONS = [
 COMPONENTS = {
     "real": ["dali.driver.hid.tridonic (_handle_read, _bus_watch, _callback)", "dali.driver.hid.hasseb (bus_traffic of own frames)",
              "dali.driver.serial LubaProtocol/SCIRS232Protocol receive path, DistributorQueue", "asyncio (CPython)"],
-    "stub": ["VirtualLoop", "os/glob/random", "serial_asyncio", "gateway firmware, bus, other masters"],
+    "stub": ["asyncio.wait_for of CPython 3.8-3.11 (transcribed, sim/legacy_asyncio.py) on ~25 % of the asyncio-driver runs", "VirtualLoop", "os/glob/random", "serial_asyncio", "gateway firmware, bus, other masters"],
 }
-PROBES = ["no-permanent-subscriber", "query-timeout", "query-answered", "query-resolved-by-next-frame", "twice-ok", "twice-failed-timeout",
+PROBES = ["subscriber-raised", "no-permanent-subscriber", "query-timeout", "query-answered", "query-resolved-by-next-frame", "twice-ok", "twice-failed-timeout",
           "twice-failed-mismatch", "twice-failed-backward", "twice-failed-noframe", "dt-context-used",
           "dt-context-expired", "event-decoded-through-map", "unknown-frame", "own-send-interleaved",
           "subscriber-left", "subscriber-joined", "traffic-burst", "explicit-no-frame",
@@ -67,7 +67,7 @@ def gen_traffic(r, driver, n):
     for _ in range(n):
         k = r.choice(["plain", "query-answer", "query-silent", "query-noframe", "query-error",
                       "twice-ok", "twice-once", "twice-interrupted", "twice-backward",
-                      "edt-ext", "edt-other-ext", "24bit", "event", "unknown", "burst"])
+                      "edt-ext", "edt-other-ext", "edt-edt-ext", "24bit", "event", "unknown", "burst"])
         if k == "plain":
             s, c = _foreign_cmd(r, ["plain16", "plain24"])
             items.append({"t_us": t, "frames": [[s[0], s[1]]], "kind": k})
@@ -99,9 +99,12 @@ def gen_traffic(r, driver, n):
             s, c = _foreign_cmd(r, ["twice16"])
             items.append({"t_us": t, "frames": [[s[0], s[1]]], "kind": k,
                           "answer": ["value", r.randrange(256)]})
-        elif k in ("edt-ext", "edt-other-ext"):
+        elif k in ("edt-ext", "edt-other-ext", "edt-edt-ext"):
             s, c = _foreign_cmd(r, ["dt_plain", "dt_query", "dt_twice"])
             fr = [[16, cmds.edt_frame(s[2])]]
+            if k == "edt-edt-ext":
+                # announced twice (the same type again, or another one first): the last one counts
+                fr.insert(0, [16, cmds.edt_frame(r.choice([s[2], s[2], 1, 6, 8, r.randrange(1, 255)]))])
             if k == "edt-other-ext":
                 s2, _ = _foreign_cmd(r, ["plain16", "plain24"])
                 fr.append([s2[0], s2[1]])
@@ -131,6 +134,10 @@ def gen_traffic(r, driver, n):
             items.append({"t_us": t, "frames": fr, "kind": k, "gap2_us": 13500})
         t += gap(True) + 20000
     return items
+
+
+class SubBoom(Exception):
+    """Raised by a harness subscriber callback."""
 
 
 def gen_plan(seed, tier="quick"):
@@ -170,6 +177,9 @@ def gen_plan(seed, tier="quick"):
         reg = r.choice([0, 0, r.randrange(0, span)])
         un = r.choice([None, None, reg + r.randrange(1000, span + 400000)])
         plan["subs"].append({"reg_us": reg, "unreg_us": un})
+        if driver in ("tridonic", "hasseb") and r.random() < 0.2:
+            # a callback that raises on every k-th report: the others must not notice
+            plan["subs"][-1]["raise_every"] = r.choice([1, 1, 2, 3])
     return plan
 
 
@@ -183,7 +193,7 @@ def _hooks(plan, ctx):
         t0 = world.loop.time()
         ctx["t0_us"] = world.now_us()
 
-        def add_sub(name, reg_us, unreg_us):
+        def add_sub(name, reg_us, unreg_us, raise_every=None):
             rec = {"name": name, "reg": None, "unreg": None, "handle": None}
             ctx["subs"].append(rec)
             ctx["got"][name] = []
@@ -193,6 +203,9 @@ def _hooks(plan, ctx):
                 if drv in ("tridonic", "hasseb"):
                     def cb(d, c, resp, flag, name=name):
                         ctx["got"][name].append((world.now_us(), c, resp, flag))
+                        if raise_every and len(ctx["got"][name]) % raise_every == 0:
+                            world.probe("subscriber-raised")
+                            raise SubBoom(name)
                     rec["handle"] = driver.bus_traffic.register(cb)
                 else:
                     rec["handle"] = driver.new_dali_rx_queue()
@@ -215,7 +228,7 @@ def _hooks(plan, ctx):
         if plan.get("permanent", True):
             add_sub("S*", None, None)
         for i, s in enumerate(plan.get("subs", [])):
-            add_sub("S%d" % i, s["reg_us"], s.get("unreg_us"))
+            add_sub("S%d" % i, s["reg_us"], s.get("unreg_us"), s.get("raise_every"))
 
     return {"connected": connected}
 
@@ -249,6 +262,8 @@ def judge(rr, ctx):
     info["em"] = emissions
     for e in rr.unhandled:
         ex = e.get("exception")
+        if isinstance(ex, SubBoom):
+            continue                    # the subscriber's own exception, reported by the loop: as it should be
         V("exception-escaped-callback", "%s: %r" % (e.get("message"), ex),
           site=type(ex).__name__ if ex else None)
     if getattr(rr.dev, "rx_exceptions", None):
